@@ -194,7 +194,8 @@ def run(ctx):
                 ctx.count('feature:falsy-or-empty')
             features(ctx, label, v)
             try:
-                roundtrip_case(ctx, case, label, kind, cls, v, d, rng, ws, ask, dtasks, fsx, tdata, pathlib)
+                other = gen(ctx.rng(label + ':other', i)) if i % 3 == 0 else None
+                roundtrip_case(ctx, case, label, kind, cls, v, d, rng, ws, ask, dtasks, fsx, tdata, pathlib, other=other)
             except BrokenCheck:
                 raise
         # ---- glue outcomes that store nothing / cannot be read
@@ -204,7 +205,7 @@ def run(ctx):
         chk(mo)
 
 
-def roundtrip_case(ctx, case, label, kind, cls, v, d, rng, ws, ask, dtasks, fsx, tdata, pathlib):
+def roundtrip_case(ctx, case, label, kind, cls, v, d, rng, ws, ask, dtasks, fsx, tdata, pathlib, other=None):
     import orjson
     orig = v
     dtasks.CTL = {'value': v}
@@ -315,6 +316,25 @@ def roundtrip_case(ctx, case, label, kind, cls, v, d, rng, ws, ask, dtasks, fsx,
             ctx.count('listNumpy:recomputed-shorter')
             if not strict_equal(kind, shorter, v3) or not strict_equal(kind, shorter, v4):
                 ctx.fail('after recomputing a shorter list, stale arrays of the previous result are loaded', case, {'len': len(v4), 'expected': len(shorter)})
+
+    # ---- forced recomputation that yields ANOTHER value: the later chain loads the new one (a stored result is replaced, not kept)
+    if other is not None and kind != 'continues':
+        dtasks.CTL = {'value': other}
+        t5 = dtasks.make_task(kind, d, cls)
+        try:
+            v5 = plain(kind, t5.force().value)
+            t6 = dtasks.make_task(kind, d, cls)
+            v6 = plain(kind, t6.value)
+        except Exception as e:  # noqa
+            ctx.fail('recomputing with another value of the storable domain raises', case, f'{type(e).__name__}: {e}'[:200])
+            return
+        ctx.count('recomputed-with-another-value')
+        want = other if kind not in ('generated', 'generatedLazy') else list(other)
+        if not strict_equal(kind, want, v5):
+            ctx.fail('the recomputing chain does not return what run returned', case, {'got': dv_desc(v5)})
+        elif not strict_equal(kind, want, v6):
+            ctx.fail('after a forced recomputation a later chain loads a value different from what the latest run returned', case,
+                     {'got': dv_desc(v6), 'latest': dv_desc(v5)})
 
 
 def dv_desc(v):
